@@ -26,6 +26,9 @@ CHECKS = {
  "C06": dict(cat="exploration", tech="model-based (stateful) property testing: generated call histories interpreted in lock-step with a mode-tracking model",
    text="Histories of next/peek_n/set_mode/current_mode/mode_name, Scanner::set_mode and fresh iterators over generated mode graphs; after every step current_mode() must equal the model's mode and every token must be a match of a pattern of the model's current mode.",
    note="tokens are judged by membership in the current mode's candidate set only (choice among candidates is C01/C05)", ref="5 C06"),
+ "C08": dict(cat="exploration", tech="property-based testing of generated class expressions; per expression exhaustive enumeration of all 1 112 064 scalar values against a boolean reference evaluation",
+   text="Per generated / corpus / fixed single-character pattern the scanner built from it is scanned over the string of ALL scalar values and the matched set is compared bit-for-bit with the boolean evaluation of the expression; exhaustive in the character dimension, sampled in the expression dimension.",
+   note="base sets of named items are measured on the implementation when used alone (as C08 words it); ASCII ground truth of \\d \\s \\w and the complement laws are asserted independently; bare `.` inside brackets is outside the domain", ref="5 C08"),
  "C09": dict(cat="exploration", tech="model-based property testing: call histories against line/column recomputed from the text",
    text="Histories (next, set_offset to scanned offsets, exhaustion, position queries, peek/advance_to) on both the WithPositions adapter and a bare FindMatches; every start position exact, end positions and position(o) with the stated tolerance behind a line break.",
    note="resets only to offsets <= furthest consumed offset (the property's 'already scanned')", ref="5 C09"),
@@ -35,6 +38,12 @@ CHECKS = {
  "C11": dict(cat="exploration", tech="metamorphic property testing over call histories (scout iterator for agreement, peek-free twin for purity)",
    text="peek_n results must equal what a scout iterator returns for the next calls of next() in the unchanged mode (stop at n / mode-switch token / end), with the prescribed classification and target mode; the same history without peeks on a twin must give identical tokens and modes.",
    note="when exactly n tokens were found and the last one switches modes both Matches and MatchesReachedModeSwitch are accepted (statement's outcomes overlap)", ref="5 C11"),
+ "C15": dict(cat="exploration", tech="property-based testing (token-level random strings and supported expressions with one planted unsupported construct) against a reference verdict classifier",
+   text="Expected Ok/Err derived from regex-syntax's parse plus a walk of the whole AST; build must never panic, must reject syntax errors and documented-unsupported constructs anywhere in any mode or lookahead, must accept the supported subset; afterwards the process-wide cache must still serve a valid build.",
+   note="Unicode classes with a plausible name may build or not (statement only fixes unknown/valued ones); shares regex-syntax's parser with scnr", ref="5 C15"),
+ "C16": dict(cat="exploration", tech="round-trip property testing with an independent JSON emitter and exact automaton equivalence of the rebuilt scanner",
+   text="from_str(to_string(x)) == x, byte-stable re-serialization, README layout written by an independent emitter accepted, equal build outcome, language-equivalent automata per mode and lookahead plus equal token streams for the rebuilt scanner; Match/MatchExt/Span/Position values round-trip; README example deserializes to its two modes.",
+   note="configurations are constructed with sorted transitions (ScannerMode::new debug-asserts that)", ref="5 C16"),
 }
 
 NOT_YET = {}
